@@ -6,11 +6,16 @@ from vlib.harness import Harness, Exc
 from vlib.zutil import TI, TB, z_and, z_or
 
 ALPH = {"ACGTEncoding": "ACGT", "ACGTnEncoding": "ACGTN", "AminoAcidEncoding": "ACDEFGHIKLMNPQRSTVWY*",
-        "ACTGEncoding": "ACTG"}
+        "ACTGEncoding": "ACTG", "custom:ACG": "ACG", "custom:RY": "RY"}
+_CUSTOM = {}
 
 
 def enc_of(name):
     import bionumpy.encodings.alphabet_encoding as ae
+    if name.startswith("custom:"):
+        if name not in _CUSTOM:
+            _CUSTOM[name] = ae.AlphabetEncoding(name.split(":")[1])
+        return _CUSTOM[name]
     return getattr(ae, name)
 
 
@@ -220,7 +225,8 @@ class Match(Harness):
 class CountKmers(Harness):
     name = "count_kmers"
     functions = ("count_kmers", "count_encoded", "get_kmers")
-    bounds = {"quick": "k in 1..2, ACGT, rows [k+1, k-1|0, k]; counts per k-mer code", "thorough": "k in 1..3, also ACGTN"}
+    bounds = {"quick": "k in 1..2, ACGT, rows [k+1, k-1|0, k]; counts per k-mer code over the whole collection, and per row (axis=-1) "
+                       "with rows that hold no k-mer before, between and after other rows", "thorough": "k in 1..3, also ACGTN"}
 
     def skeletons(self, tier, seed):
         out = []
@@ -228,8 +234,11 @@ class CountKmers(Harness):
             for k in ((1, 2) if tier == "quick" else (1, 2, 3)):
                 if enc == "ACGTnEncoding" and k == 3:
                     continue
-                out.append(dict(enc=enc, k=k, lens=[k + 1, max(k - 1, 0), k]))
-                out.append(dict(enc=enc, k=k, lens=[k + 1]))
+                out.append(dict(enc=enc, k=k, lens=[k + 1, max(k - 1, 0), k], axis=None))
+                out.append(dict(enc=enc, k=k, lens=[k + 1], axis=None))
+                # per-row counts: rows without any k-mer (empty / shorter than k) before, between and after other rows
+                for lens in ([k + 1, max(k - 1, 0), k], [k, 0, 0, k + 1], [0, k + 1, k - 1 if k > 1 else 0], [k + 1]):
+                    out.append(dict(enc=enc, k=k, lens=lens, axis=-1))
         return out
 
     def inputs(self, skel, V):
@@ -239,8 +248,13 @@ class CountKmers(Harness):
     def call(self, skel, x, ctx):
         from bionumpy.sequence import count_kmers
         seq = make_ragged(ctx, skel, x)
-        c = count_kmers(seq, skel["k"])
-        return dict(counts=ctx.lst(c.counts))
+        if skel.get("axis") is None:
+            c = count_kmers(seq, skel["k"])
+            return dict(counts=ctx.lst(c.counts))
+        c = count_kmers(seq, skel["k"], axis=-1)
+        counts = c.counts
+        assert tuple(counts.shape) == (len(skel["lens"]), len(ALPH[skel["enc"]]) ** skel["k"]), counts.shape
+        return dict(rows=[ctx.lst(counts[i]) for i in range(len(skel["lens"]))])
 
     def post(self, skel, x, out):
         if isinstance(out, Exc):
@@ -248,6 +262,16 @@ class CountKmers(Harness):
         n, k = len(ALPH[skel["enc"]]), skel["k"]
         vals = [x[f"l{i}"].t for i in range(sum(skel["lens"]))]
         rows = rows_terms(skel, vals)
+        if skel.get("axis") is not None:
+            conj = []
+            if len(out["rows"]) != len(rows):
+                return False
+            for row, got in zip(rows, out["rows"]):
+                codes = [sum(row[j + i] * n ** i for i in range(k)) for j in range(max(0, len(row) - k + 1))]
+                if len(got) != n ** k:
+                    return False
+                conj += [TI(got[c]) == sum([z3.If(h == c, 1, 0) for h in codes], z3.IntVal(0)) for c in range(n ** k)]
+            return z_and(conj)
         codes = [sum(row[j + i] * n ** i for i in range(k)) for row in rows for j in range(max(0, len(row) - k + 1))]
         if len(out["counts"]) != n ** k:
             return False
@@ -258,6 +282,12 @@ class CountKmers(Harness):
             return f"raised {cout}"
         n, k = len(ALPH[skel["enc"]]), skel["k"]
         rows = rows_terms(skel, [cx[f"l{i}"] for i in range(sum(skel["lens"]))])
+        if skel.get("axis") is not None:
+            exp = []
+            for row in rows:
+                codes = [sum(row[j + i] * n ** i for i in range(k)) for j in range(max(0, len(row) - k + 1))]
+                exp.append([codes.count(c) for c in range(n ** k)])
+            return None if cout["rows"] == exp else f"count_kmers({rows}, k={k}, axis=-1) = {cout['rows']}, expected per row {exp}"
         codes = [sum(row[j + i] * n ** i for i in range(k)) for row in rows for j in range(max(0, len(row) - k + 1))]
         exp = [codes.count(c) for c in range(n ** k)]
         return None if cout["counts"] == exp else f"count_kmers({rows}, k={k}) = {cout['counts']}, expected {exp}"
@@ -266,13 +296,15 @@ class CountKmers(Harness):
 class KmerText(Harness):
     name = "kmer_to_string"
     functions = ("KmerEncoding.to_string", "KmerEncoding.encode")
-    bounds = {"quick": "every k-mer code for k in 1..3 over ACGT (shift path), k in 1..2 over ACGTN (generic path)",
+    bounds = {"quick": "every k-mer code for k in 1..3 over ACGT (shift path), k in 1..2 over ACGTN (generic path), k in 1..3 over the "
+                       "3- and 2-letter alphabets ACG and RY",
               "thorough": "k up to 4 (ACGT), 3 (ACGTN), 2 (amino acids)"}
 
     def skeletons(self, tier, seed):
+        small = [dict(enc=e, k=k) for e in ("custom:ACG", "custom:RY") for k in (1, 2, 3)]     # alphabets of fewer than 4 letters
         if tier == "quick":
-            return [dict(enc="ACGTEncoding", k=k) for k in (1, 2, 3)] + [dict(enc="ACGTnEncoding", k=k) for k in (1, 2)]
-        return [dict(enc="ACGTEncoding", k=k) for k in (1, 2, 3, 4)] + [dict(enc="ACGTnEncoding", k=k) for k in (1, 2, 3)] + \
+            return [dict(enc="ACGTEncoding", k=k) for k in (1, 2, 3)] + [dict(enc="ACGTnEncoding", k=k) for k in (1, 2)] + small
+        return small + [dict(enc="ACGTEncoding", k=k) for k in (1, 2, 3, 4)] + [dict(enc="ACGTnEncoding", k=k) for k in (1, 2, 3)] + \
                [dict(enc="AminoAcidEncoding", k=k) for k in (1, 2)]
 
     def inputs(self, skel, V):
